@@ -586,6 +586,12 @@ def lib_length(t: 'Term') -> Optional[Rat]:
             shp = arg('shape', 0)
             if isinstance(shp, Num) and shp.length is None:
                 return shp.r
+        elif h in ('lib:numpy.zeros_like', 'lib:numpy.ones_like', 'lib:numpy.empty_like', 'lib:numpy.full_like'):
+            shp = t.kw('shape')
+            if isinstance(shp, Num) and shp.length is None:
+                return shp.r
+            if shp is None:
+                return _len_of(arg('a', 0) if arg('a', 0) is not None else arg('prototype', 0))
         elif h == 'lib:numpy.arange':
             stop = arg('stop', None)
             start = arg('start', None)
